@@ -15,6 +15,9 @@
 //   -m     mmap a file (prot: r, rx, rw, n) at file offset off
 //   -F     open N extra descriptors
 //   -d     synthetic linker data: PHDR array -> PT_DYNAMIC -> DT_DEBUG -> r_debug -> N link_maps
+//   -M     PATHHEX|FLAGS|SEG,SEG,…  load a module: segments placed back to back in a fresh region that is followed by
+//          an unmapped page; SEG = OFF:NPAGES:PROT (file-backed, PROT r|rx|rw|n) or g:NPAGES (reserved, PROT_NONE, anonymous);
+//          FLAGS: d = unlink the file once mapped, - = nothing
 //   -w     K:SP  blocked thread K waits with stack pointer SP (0, all-ones, unmapped, …)
 //   -g     install a counting handler for SIGRTMIN+1 (per-thread counters in the shared page)
 //
@@ -106,6 +109,8 @@ static char names[MAXT][64];
 static int name_len[MAXT];
 static uint64_t stack_lo[MAXT], stack_hi[MAXT];
 static int is_spin[MAXT];
+static uint64_t lmod_addr[64], lmod_pages[64];
+static int nlmods;
 static int forced[MAXT];
 static uint64_t forced_sp[MAXT];
 
@@ -173,7 +178,7 @@ int main(int argc, char **argv) {
   memset(sh, 0, sizeof *sh);
 
   int c;
-  while ((c = getopt(argc, argv, "t:s:n:o:S:r:m:F:d:gw:")) != -1) {
+  while ((c = getopt(argc, argv, "t:s:n:o:S:r:m:M:F:d:gw:")) != -1) {
     switch (c) {
       case 't': nblock = atoi(optarg); break;
       case 's': nspin = atoi(optarg); break;
@@ -232,6 +237,43 @@ int main(int argc, char **argv) {
         snprintf(mods[nmods].prot, sizeof mods[nmods].prot, "%s", prot);
         nmods++;
         free(s);
+        break;
+      }
+      case 'M': {
+        char *sp = strdup(optarg);
+        char *bar1 = strchr(sp, '|'); if (!bar1) return 2; *bar1 = 0;
+        char *bar2 = strchr(bar1 + 1, '|'); if (!bar2) return 2; *bar2 = 0;
+        char path[512];
+        int pl = unhex(sp, path); path[pl] = 0;
+        int del = strchr(bar1 + 1, 'd') != NULL;
+        // total pages
+        uint64_t total = 0;
+        { char *t = strdup(bar2 + 1); for (char *q = strtok(t, ","); q; q = strtok(NULL, ",")) {
+            if (q[0] == 'g') total += strtoull(q + 2, NULL, 0);
+            else { char *c1 = strchr(q, ':'); total += strtoull(c1 + 1, NULL, 0); } }
+          free(t); }
+        uint8_t *base = mmap(NULL, (total + 1) * page, PROT_NONE, MAP_PRIVATE | MAP_ANONYMOUS | MAP_NORESERVE, -1, 0);
+        if (base == MAP_FAILED) return 2;
+        int fd = open(path, O_RDONLY);
+        if (fd < 0) { perror(path); return 2; }
+        uint8_t *at = base;
+        for (char *q = strtok(bar2 + 1, ","); q; q = strtok(NULL, ",")) {
+          if (q[0] == 'g') { at += strtoull(q + 2, NULL, 0) * page; continue; }
+          char *c1 = strchr(q, ':'); char *c2 = strchr(c1 + 1, ':');
+          uint64_t off = strtoull(q, NULL, 0), np = strtoull(c1 + 1, NULL, 0);
+          const char *prot = c2 + 1;
+          int pr = PROT_READ;
+          if (!strcmp(prot, "rx")) pr = PROT_READ | PROT_EXEC;
+          else if (!strcmp(prot, "rw")) pr = PROT_READ | PROT_WRITE;
+          else if (!strcmp(prot, "n")) pr = PROT_NONE;
+          if (mmap(at, np * page, pr, MAP_PRIVATE | MAP_FIXED, fd, off) == MAP_FAILED) { perror("mmap module"); return 2; }
+          at += np * page;
+        }
+        close(fd);
+        munmap(base + total * page, page);      // the hole after the module
+        if (del) unlink(path);
+        lmod_addr[nlmods] = (uint64_t)(uintptr_t)base; lmod_pages[nlmods] = total; nlmods++;
+        free(sp);
         break;
       }
       case 'F': nfds = atoi(optarg); break;
@@ -347,6 +389,8 @@ int main(int argc, char **argv) {
   for (int i = 0; i < nmods; i++)
     printf("%s{\"addr\":%llu,\"len\":%llu,\"path\":\"%s\",\"prot\":\"%s\",\"off\":%llu}", i ? "," : "", (unsigned long long)mods[i].addr,
            (unsigned long long)mods[i].len, mods[i].path, mods[i].prot, (unsigned long long)mods[i].off);
+  printf("],\"lmods\":[");
+  for (int i = 0; i < nlmods; i++) printf("%s{\"addr\":%llu,\"pages\":%llu}", i ? "," : "", (unsigned long long)lmod_addr[i], (unsigned long long)lmod_pages[i]);
   printf("],\"nfds\":%d,\"dso\":{\"n\":%d,\"phdr\":%llu,\"phnum\":%d,\"dyn\":%llu,\"r_debug\":%llu,\"base\":%llu,\"maps\":[", nfds, ndso,
          (unsigned long long)dso_phdr, dso_phnum, (unsigned long long)dso_dyn, (unsigned long long)dso_rdebug, (unsigned long long)dso_base);
   for (int i = 0; i < ndso; i++)
